@@ -182,3 +182,17 @@ Ltac simpl_set_in H :=
   | context [?p (set ?fld ?g ?s)] =>
       first [ change (p (set fld g s)) with (p s) in H | change (p (set fld g s)) with (g (p s)) in H ]
   end; cbv beta in H.
+
+Lemma some_inj {A} (a b : A) : Some a = Some b -> a = b.
+Proof. congruence. Qed.
+(* split a conjunction without ever trying `eq_refl` on an equation (that would unfold `htr`) *)
+Ltac conjs := repeat apply conj.
+
+Lemma upd_nat_const {A} (l : list A) i g x : nth_error l i = Some x -> upd_nat l i (fun _ => g x) = upd_nat l i g.
+Proof.
+  revert i. induction l as [|y l IH]; intros [|i] H; cbn in *; try discriminate.
+  - injection H as ->. reflexivity.
+  - f_equal. apply IH. exact H.
+Qed.
+Lemma setN_updN {A} (l : list A) i g x : nthN l i = Some x -> setN l i (g x) = updN l i g.
+Proof. intros H. unfold setN, updN. apply upd_nat_const. exact H. Qed.
